@@ -21,7 +21,9 @@ ASSUME = [
     "rendezvousRanked is modelled as the stable insertion sort that Go's sort.Slice performs for at most 12 elements; beyond 12 peers "
     "only the any-sort theorem (distinct scores) applies; the harness uses 1..8 peers",
     "the health view is an input (set through a verif hook as checkPeer would set it); the HTTP health probe loop and its timing are not modelled",
-    "single_server assumes a COMMON health view and peer set at the entry nodes (each real node keeps its own view)",
+    "single serving pool: proved for every pair of health views outside the clause of the recorded finding C17-split-health-view "
+    "(single_server_partial); under the clause — two entry nodes disagreeing on the eligibility of a serving node — the property fails "
+    "on the real code (KNOWN-FINDING, witness split_view_witness); the monitor compares answers of pools with the same peer set whatever their views",
     "end-to-end forwarding runs over an in-memory http.RoundTripper into the peers' real handlers, not over loopback sockets",
     "each PeerPool method is one atomic step (p.mu / healthMu); node ids are arbitrary byte strings",
 ]
